@@ -91,7 +91,8 @@ TextKinds == {"ascii", "latin1", "utf8", "cjk"}
 Encs      == {"raw", "b", "q", "folded"}
 NameKinds == {"none", "atom", "quoted", "encb", "encq"}
 Zones     == {"utc", "east", "west", "half", "gmt"}
-Structs   == {"plain", "html", "alt", "related", "altrel"}
+Structs   == {"plain", "html", "alt", "related", "altrel", "nobody"}   \* "nobody": no body part at all
+                                                                      \* (headers only / attachments only)
 Charsets  == {"ascii", "utf8", "latin1", "koi8r"}
 CTEs      == {"7bit", "qp", "base64"}
 FnKinds   == {"none", "ascii", "rfc2231", "rfc2047"}
@@ -183,11 +184,14 @@ PlainCands(m) ==
     \o (IF m.body.x \in {"footer", "both"} THEN <<XTok("footer")>> ELSE <<>>)
     \o (IF m.body.x \in {"fwd", "both"} THEN <<XTok("fwd")>> ELSE <<>>)
 FirstPlain(m) == IF PlainCands(m) = <<>> THEN <<>> ELSE <<PlainCands(m)[1]>>
-ValidBody(b) == b.x = "alt2" => b.s \in {"alt", "altrel"}
+ValidBody(b) == /\ (b.x = "alt2" => b.s \in {"alt", "altrel"})
+                /\ (b.s = "nobody" => b.x = "none")
 
-\* units / full text (every structure of the universe has a plain or an HTML body)
-ExpUnitType(m) == IF PlainCands(m) # <<>> THEN "plain" ELSE "html"
-ExpFull(m)     == IF PlainCands(m) # <<>> THEN FirstPlain(m) ELSE <<ExpHtml(m)>>
+\* units / full text: EVERY message has exactly one unit (C03: units mirror the messages) -- the plain
+\* body, else the HTML body, else one unit of type "empty" with the empty text (no body at all)
+ExpUnitType(m) == IF PlainCands(m) # <<>> THEN "plain" ELSE IF HasHtml(m.body.s) THEN "html" ELSE "empty"
+ExpFull(m)     == IF PlainCands(m) # <<>> THEN FirstPlain(m)
+                  ELSE IF HasHtml(m.body.s) THEN <<ExpHtml(m)>> ELSE <<>>
 
 MtN(t) == CASE t = "invented" -> 0 [] t = "official" -> 1 [] t = "alias" -> 2 [] t = "octet" -> 3
             [] t = "cross" -> 1 [] t = "plausible" -> 5
@@ -266,6 +270,7 @@ Accept(path, m, o) ==
         \* C03 clause for e-mail: one unit of the right body type; full text = that body = join of units
         /\ o.joinok
         /\ o.nunits = 1 /\ o.utype = e.utype
+        /\ o.utext = o.full                                   \* the unit's text is the body / the full text
         /\ IF PlainCands(m) # <<>> THEN o.full = o.plain ELSE o.full = e.full
         /\ (~HasInline(m.body.s) => Len(oa) = Len(o.atts))      \* "inline" only where there is one
         /\ Len(oa) = Len(e.atts)
